@@ -19,20 +19,37 @@ RULE = ("configs: random trees (depth <= 4, fan-out <= 4, at most ~40 lines, ind
         "Oracle rows are computed with Python's re on the kept line texts using the property's reading of the flags (fullmatch / whitespace runs -> \\s+ / "
         "literal text / literal text with tolerant whitespace runs for escape_chars+ignore_ws), for every calling form. Not sent to the model (implementation and "
         "oracle still run): the wo-child list form when the second character of p is not a valid expression (re.error, F07). "
-        "regex_flags / regex_groups are not generated; "
-        "typeguard rejections are out of scope. non-trivial = the config has a child line and the answer is a non-empty list; distinct by request.")
+        "regex_flags is not generated (not one of the property's flags). "
+        "ARGUMENT-FORM STREAMS (3 more queries per config, channel searchf, model Ccp.SearchForms): every expression may be written as a compiled "
+        "re.Pattern, as a BaseCfgLine of this parse or a foreign one (linenum, text), be omitted (None) or ill-typed (int); list arguments also as a "
+        "tuple, lists of the wrong length / mixed element kinds; find_object_branches(regex_groups=True) with capture-group expressions "
+        "((p), (p)|(zz) with a non-participating group, (\\S+)\\s*(\\S*)) x empty_branches x reverse; BaseCfgLine.re_search and "
+        "BaseCfgLine.re_search_children called on every line; and ~25% of these queries are asked while an uncommitted ConfigList.insert() is "
+        "pending (auto_commit=False): every API must refuse (NotImplementedError, or the error of an argument check that precedes the guard). "
+        "The exception class of every rejection is compared with the model (ValueError, TypeError, IndexError, InvalidParameters, "
+        "NotImplementedError, typeguard's TypeCheckError where the first element decides). The oracle judges compiled patterns like the str, "
+        "tuples like lists, regex_groups rows against the brute-force chains, and the refusal while pending; for BaseCfgLine / missing / ill-typed "
+        "arguments the property does not say which lines are right (only: sorted, unique, lines of the config) and the answer is compared with the model only. "
+        "non-trivial = the config has a child line and the answer is a non-empty list; distinct by request.")
 LEVEL_TEXT = ("Theorems (Lean 4, all trees, all oracle rows): find_objects = ascending list of matching lines (reversed on request, duplicate free, in range); "
               "find_object_branches without empty branches = the lexicographically ordered list of all chains of direct parent->child lines matching "
               "regex i at depth i, and with empty branches = the maximal partial chains padded with None; list forms of find_parent/find_child = ascending "
               "duplicate-free first/last components of the chains; two-argument forms and 'parents without child' = exactly the matching parents having "
               "some/no matching direct (recurse=False) or any-depth (recurse=True, under the forest invariant parent <= line) child; list form of length 2 = "
-              "two-argument form at recurse=False for either value of reverse and any flag reading of the rows; has_child_with = some matching direct/any-depth child. The model is tied to the code by differential runs (tree dump and answer of every query compared).")
+              "two-argument form at recurse=False for either value of reverse and any flag reading of the rows; has_child_with = some matching direct/any-depth child. "
+              "Argument handling (Ccp.SearchForms, all arguments and flags): with str arguments and nothing pending it adds nothing (forms_str_agree); a compiled re.Pattern answers like the str "
+              "with the same row wherever accepted and is otherwise refused, never mis-read (pattern_form_agrees / pattern_form_refused); a tuple answers like the list (tuple_form_agrees); a BaseCfgLine "
+              "parentspec is read as its text, find_objects(obj) returns exactly the line equal to obj (line_as_parentspec, findObjects_line_spec); while an insert is pending no API answers "
+              "(pending_refused); obj.re_search / obj.re_search_children = the row / the matching direct or any-depth children (objSearch_spec); regex_groups=True = one row of tuple cells per maximal "
+              "partial chain, capture groups or the line itself per cell (branches_groups_partial; the full statement fails for empty_branches=False: finding FC04f). "
+              "The model is tied to the code by differential runs (tree dump and answer of every query compared).")
 LEVEL_NOTE = ("Trusted: Lean kernel, standard axioms, the harness. Python's re is an oracle parameter (rows), universally quantified in the theorems and computed with re "
               "directly in the runs. The tree model is shared with C01-C03; the forest invariant is a hypothesis here (proved for parse by C03).")
 LEVEL_NOTE += (" " + "regexes_as_modelled (Ccp.RxC04): the templates behind the flag readings of the oracle rows (re.sub(r'\\s+', <backslash backslash s+>) of build_space_tolerant_regex, re.sub(r'\\\\(\\s)', r'\\1', re.escape(..)) of escape_linespec, '^(?:%s)$' of _find_line_OBJ) are re-read from /repo's AST on every run and proved equal to the ones the TRUSTED flag reading was written for.")
 ASSUMPTIONS = ["regular expressions compile; lines contain no line break (so '^(?:p)$' with search is fullmatch)",
                "no 64-bit hash collision between distinct (linenum, text) pairs (set de-duplication after F03)",
-               "regex_flags=0, regex_groups=False"]
+               "regex_flags=0",
+               "typeguard's collection check looks at the first element only (its default strategy), as observed on the pinned version"]
 TRUSTED = ["flag readings used for the oracle rows: exactmatch=fullmatch, ignore_ws=whitespace runs of the pattern become \\s+, escape_chars=literal text"]
 EXHAUSTIVE = {"quick": False, "thorough": False}
 
@@ -45,9 +62,9 @@ API_NAME = {
 }
 # which flags an API accepts
 ACCEPTS = {
-    "fo": "awxr", "fol": "awxr", "br": "er", "pl": "wxr", "cl": "wxr", "p2": "wxrc", "c2": "wxrc", "w2": "wxrc", "wl": "wxrc",
+    "fo": "awxr", "fol": "awxr", "br": "egr", "pl": "wxr", "cl": "wxr", "p2": "wxrc", "c2": "wxrc", "w2": "wxrc", "wl": "wxrc",
     "rc": "c", "hc": "c", "os": "", "oc": "c",
-}   # a exactmatch, w ignore_ws, x escape_chars, r reverse, c recurse/all_children, e empty_branches
+}   # a exactmatch, w ignore_ws, x escape_chars, r reverse, c recurse/all_children, e empty_branches, g regex_groups
 
 POOL = [
     "interface Eth1", "interface Eth10", "interface Eth1/1", "ip address 1.1.1.1 255.0.0.0", "ip  address 1.1.1.1 255.0.0.0",
@@ -146,7 +163,8 @@ def kinds_of(case):
 
 
 def is_form(case):
-    return bool(case.get("tuple") or case.get("pend") or set(kinds_of(case)) - {"s"} or case["api"] in ("os", "oc"))
+    return bool(case.get("tuple") or case.get("pend") or set(kinds_of(case)) - {"s"} or case["api"] in ("os", "oc")
+                or (case["api"] == "br" and "g" in case.get("flags", "")))
 
 
 def split_args(case):
@@ -216,8 +234,23 @@ def mkf(cfg, q, origin="gen"):
             return case
         p1 = enc_row(row_of(c_eff, rflags, kept))
     mflags = "".join(c for c in flags if c in "awxrce") + ("u" if case["pend"] else "")
-    otext = next((p for k, p in first if k == "o"), "")
     ds = T.cfg_delims(cfg["syntax"], cfg["delims"])
+    if api == "br" and "g" in flags:
+        if set(kinds) - {"s"}:
+            return case
+        table = []
+        for pat in pats:
+            cre = re.compile(pat)
+            ent = []
+            for t in kept:
+                m = cre.search(t)
+                ent.append("x" if m is None else "g" + ",".join("-" if x is None else wire.enc_str(x) for x in m.groups()))
+            table.append("G" + ";".join(ent))
+        case["req"] = wire.req(
+            "searchf", "1" if cfg["syntax"] == "ios" else "0", wire.enc_str("".join(ds)), "1" if case["ignore_blank"] else "0",
+            wire.enc_strs(lines), "brg", mflags, " ".join(enc_row(r) for r in rows), " ".join(table) if table else "-")
+        return case
+    otext = next((p for k, p in first if k == "o"), "")
     case["req"] = wire.req(
         "searchf", "1" if cfg["syntax"] == "ios" else "0", wire.enc_str("".join(ds)), "1" if case["ignore_blank"] else "0",
         wire.enc_strs(lines), MODEL_OP.get(api, api), mflags, shape + "".join(k for k, _ in first),
@@ -361,7 +394,7 @@ def rand_chain(rng, ch, n):
 def rand_flags(rng, api):
     fl = ""
     for c in ACCEPTS[api]:
-        p = {"a": 0.25, "w": 0.25, "x": 0.2, "r": 0.3, "c": 0.5, "e": 0.5}[c]
+        p = {"a": 0.25, "w": 0.25, "x": 0.2, "r": 0.3, "c": 0.5, "e": 0.5, "g": 0.3}[c]
         if rng.random() < p:
             fl += c
     return fl
@@ -393,6 +426,12 @@ def rand_query(rng, cfg, kept, ch, api=None):
             pats.append(rng.choice(EMPTY_MATCH))
         else:
             pats.append(rand_pattern(rng, kept, anchor, literal))
+    if "g" in flags:                             # regex_groups: give most expressions capture groups
+        for j, p in enumerate(pats):
+            r = rng.random()
+            q = "(" + p + ")" if r < 0.35 else "(" + p + ")|(zz)" if r < 0.45 else r"(\S+)\s*(\S*)" if r < 0.55 else p
+            if compiles(q):
+                pats[j] = q
     return {"api": api, "pats": pats, "flags": flags}
 
 
@@ -515,6 +554,27 @@ def enc_branches(bs):
     return ";".join(",".join("-" if o is None else str(o.linenum) for o in b) for b in bs)
 
 
+def enc_item(x):
+    if x is None:
+        return "-"
+    if isinstance(x, str):
+        return wire.enc_str(x)
+    return "#%d" % x.linenum
+
+
+def enc_cell(c):
+    """a cell of a regex_groups=True row: a tuple or a list of None / line objects / group texts"""
+    if isinstance(c, tuple):
+        return "T" + ",".join(enc_item(x) for x in c)
+    if isinstance(c, list):
+        return "L" + ",".join(enc_item(x) for x in c)
+    return "?" + type(c).__name__
+
+
+def enc_matrix(bs):
+    return ";".join(":".join(enc_cell(c) for c in b) for b in bs)
+
+
 def the_line(parse, case, text):
     """the BaseCfgLine argument: line `onum` of this parse when it has that text, else a foreign object (linenum, text)"""
     objs, k = parse.objs, case.get("onum") or 0
@@ -551,6 +611,8 @@ def run_form_query(parse, case, objs):
     c0 = mk_arg(parse, case, *child) if child else None
     if api in ("fo", "fol"):
         return T.lnums(parse.find_objects(a0, **kw))
+    if api == "br" and "g" in fl:
+        return enc_matrix(parse.find_object_branches(a0, regex_groups=True, empty_branches="e" in fl, reverse="r" in fl))
     if api == "br":
         return enc_branches(parse.find_object_branches(a0, empty_branches="e" in fl, reverse="r" in fl))
     if api == "pl":
@@ -748,6 +810,15 @@ def expected(case, parents, children, texts, flags=None, pats=None):
         tps = padded_chains(children, ms) if "e" in fl else all_chains(children, ms)
         if rev:
             tps = tps[::-1]
+        if "g" in fl:
+            # every line of a chain is reported by the capture groups of its expression (the line itself when the
+            # expression has none); a missing line by (None,)
+            def cell(j, c):
+                if c is None:
+                    return "T-"
+                gs = re.search(pats[j], texts[c]).groups()
+                return "T" + ",".join("-" if x is None else wire.enc_str(x) for x in gs) if gs else "T#%d" % c
+            return ";".join(":".join(cell(j, c) for j, c in enumerate(tp)) for tp in tps)
         return ";".join(",".join("-" if x is None else str(x) for x in tp) for tp in tps)
     if api in ("pl", "cl"):
         if len(pats) == 0:
@@ -787,6 +858,15 @@ def oracle(case, ans):
         return [f"[answered-while-insert-pending] {API_NAME[api]}({case['pats']!r}, flags={fl!r}) answered {res[:120]!r} "
                 f"although ConfigList.insert() was not committed (search_safe is False)"]
     want = expected(case, parents, children, texts)
+    if want is None and not res.startswith("err:") and api not in ("br", "oc") and not res.startswith("wrong-"):
+        # the property does not say which lines; it still says: lines of the config, no duplicates, sorted by line number
+        try:
+            got = nat(res)
+        except ValueError:
+            got = None
+        ordered = got is not None and all((a > b) if "r" in fl else (a < b) for a, b in zip(got, got[1:]))
+        if not ordered or any(i >= len(texts) for i in got):
+            return [f"[result-not-sorted-unique-in-range] {API_NAME[api]}({case['pats']!r}, kinds={kinds_of(case)!r}, flags={fl!r}) returned {res[:120]!r}"]
     if want is None or res == want:
         return []
     name = API_NAME[api]
@@ -799,6 +879,8 @@ def oracle(case, ans):
             diag = "list-form-escape-typeerror"
     if api == "c2" and "r" in fl:
         alts.append(("reverse-ignored", fl.replace("r", ""), None))
+    if api == "br" and "g" in fl and "e" not in fl:
+        alts.append(("regex-groups-keeps-partial-branches", fl + "e", None))
     if api == "wl" and len(case["pats"]) == 2:
         p = case["pats"][0]
         if kinds_of(case)[0] == "p":
@@ -862,6 +944,8 @@ def known_id(case, failure):
         return "F07"
     if tag == "exactmatch-formats-compiled-pattern" and api in ("fo", "fol") and "a" in case["flags"] and "p" in kinds_of(case):
         return "FC04e"
+    if tag == "regex-groups-keeps-partial-branches" and api == "br" and "g" in case["flags"] and "e" not in case["flags"]:
+        return "FC04f"
     return None
 
 
